@@ -14,6 +14,11 @@ def _key(sid):
     return (p, int(k))
 
 
+# retired seeds (neutralised by a later fix commit: their demonstration passes with the patch applied) get a row of their own
+for sid in os.listdir(os.path.join(HERE, 'seeded')):
+    m = json.load(open(os.path.join(HERE, 'seeded', sid, 'meta.json')))
+    if m.get('retired'):
+        rep_by_id[sid] = [sid, 'retired', 0, []]
 rep = [rep_by_id[k] for k in sorted(rep_by_id, key=_key)]
 rows = ['| seed | change (file: what) | caught by (quick tier) | first identities reported |', '|---|---|---|---|']
 for sid, code, wall, idents in rep:
@@ -22,7 +27,7 @@ for sid, code, wall, idents in rep:
     summ = summ[:230].rsplit(' ', 1)[0] + ' …' if len(summ) > 230 else summ
     summ = summ.replace('|', '\\|')
     prop = sid.split('-')[0]
-    rows.append('| %s | %s | %s | %s |' % (sid, summ, ('%s (%.0f s)' % (prop, wall)) if code == 1 else '**not caught** (exit %s)' % code,
+    rows.append('| %s | %s | %s | %s |' % (sid, summ, ('%s (%.0f s)' % (prop, wall)) if code == 1 else 'retired: no longer breaks the property on the repaired tree' if code == 'retired' else '**not caught** (exit %s)' % code,
                                          ', '.join('`%s`' % i.replace('|', '\\|')[:90] for i in idents[:2])))
 table = '\n'.join(rows) + '\n'
 p = os.path.join(HERE, 'DESIGN.md')
@@ -30,4 +35,4 @@ s = open(p).read()
 a, b = s.index('<!-- SEEDED-TABLE-BEGIN -->'), s.index('<!-- SEEDED-TABLE-END -->')
 s = s[:a] + '<!-- SEEDED-TABLE-BEGIN -->\n' + table + s[b:]
 open(p, 'w').write(s)
-print('%d rows, %d caught; not caught: %s' % (len(rep), sum(1 for r in rep if r[1] == 1), [r[0] for r in rep if r[1] != 1]))
+print('%d rows, %d caught; not caught: %s' % (len(rep), sum(1 for r in rep if r[1] == 1), [r[0] for r in rep if r[1] not in (1, 'retired')]))
